@@ -226,6 +226,10 @@ def run(rep: Report):
     tier = rep.tier
     opts = {"prove_timeout_ms": 5000, "fork_timeout_ms": 2000, "seed": rep.seed, "scenario_wall_s": 240 if tier == "quick" else 2400}
     run_plan(rep, _plan(tier), SCENARIOS, opts)
+    if tier == "thorough":
+        from ..runner import run_crosshair
+
+        run_crosshair(rep, "ch_c17")
     rep.bounds = {"leaves": "<=3 (quick) / 4 (thorough, three kinds)", "parenthesisations": "all (Catalan shapes)", "leaf kinds": "displacement, exchange, cell, user subclass of BaseMove; operations: Box, Ball, Translation, user subclass", "multipliers": "1-2 per leaf and at the root; invalid: 0, -1, 1.5, 2.0, '2', None"}
     rep.assumptions = ["finite discrete domain: the solver drives an exhaustive enumeration; no arithmetic is being proved"]
     rep.stubs = ["recording bare moves with symbolic truthiness"]
